@@ -2,6 +2,8 @@ import NibabelModel.Model.C08
 import NibabelModel.Lemmas.C08_Vol
 import NibabelModel.Lemmas.C08_Trk
 import NibabelModel.Lemmas.C08_Tck
+import NibabelModel.Lemmas.C08_Ext
+import NibabelModel.Lemmas.C08_TckHdr
 import NibabelModel.Generated.C08
 /-! Props/C08 — the property theorems for C08 (a truncated file is never read back as different data). -/
 namespace Nb.C08
@@ -169,6 +171,37 @@ theorem volume_slice_prefix (fmt : VolFmt) (img : Img) (wf : img.WF fmt) (idx : 
           rw [h1] at h; cases h; rfl
         · rw [he] at h; cases h
 
+/-- **single_strict_prefix.**  A single-file volume without trailing metadata (NIfTI-1/2 `.nii`: the data
+    are the last bytes of the file) holding at least one voxel: EVERY strict prefix raises. -/
+theorem single_strict_prefix (fmt : VolFmt) (img : Img) (wf : img.WF fmt) (hf : img.footer = [])
+    (hd : img.data ≠ []) (um : Bool) (m : Nat) (st : Bool) (hm : m < (writeSingle fmt img).length) :
+    ∃ e, readSingle fmt um ⟨(writeSingle fmt img).take m, st⟩ = .error e := by
+  have hv := volume_prefix fmt img wf um m st
+  have hlen : (writeSingle fmt img).length = singleOff fmt img + img.data.length := by
+    simp [writeSingle, hdrBlock, leN_length, singleOff, hf]; omega
+  rcases hv.1 with h1 | he
+  · rcases hv.2 h1 with h0 | h0
+    · exact absurd h0 hd
+    · omega
+  · exact he
+
+/-- **cifti_prefix.**  CIFTI-2 (`.dscalar.nii` …: NIfTI-2 single file, XML header in the first
+    extension, parsed by expat under the contract of `xmlRead`, matrix = NIfTI data at the end of the
+    file): every strict prefix raises — a cut inside the XML extension is refused by the NIfTI
+    extension reader before expat sees it, a cut behind it by the data length check. -/
+theorem cifti_prefix (fmt : VolFmt) (img : Img) (wf : img.WF fmt) (hf : img.footer = [])
+    (hd : img.data ≠ []) (um : Bool) (xmlLen : Nat) (m : Nat) (st : Bool)
+    (hm : m < (writeSingle fmt img).length) :
+    ∃ e, ciftiRead fmt um xmlLen ⟨(writeSingle fmt img).take m, st⟩ = .error e := by
+  obtain ⟨e, he⟩ := single_strict_prefix fmt img wf hf hd um m st hm
+  exact ⟨e, by simp [ciftiRead, he]⟩
+
+/-- a CIFTI-like layout: NIfTI-2 header (540), one extension of ecode 32 with an 8-byte XML text, data;
+    the complete file loads -/
+example : ciftiRead ⟨540, 0, true, none, 0⟩ true 8 (Src.plain (writeSingle ⟨540, 0, true, none, 0⟩
+    { fill := List.replicate 524 0, extender := [1, 0, 0, 0], exts := [(32, [60, 67, 73, 70, 84, 73, 47, 62])],
+      pad := [], data := [1, 2, 3, 4], footer := [] })) = .ok [1, 2, 3, 4] := by decide +kernel
+
 /-! ### pairs (NIfTI-1/2 `.hdr/.img`, Analyze, SPM99, SPM2) -/
 
 /-- **pair_prefix (header member).**  Header file cut anywhere (image file intact): the load raises
@@ -217,6 +250,25 @@ theorem pair_prefix_image (fmt : VolFmt) (img : Img) (hH : fmt.hdrSize = 16 + im
     · exact ⟨e, he⟩
 
 example : (⟨20, 0, false, none, 0⟩ : VolFmt).hdrSize = 16 + [1, 2, 3, 4].length ∧ 3 < [1, 2, 3, 4].length := by decide
+
+/-- **pair_ext_prefix.**  NIfTI pair WITH extensions, exact characterisation for a plain header file cut
+    `j` bytes into the extension section (behind header block and extender; image file intact): the load
+    succeeds — returning exactly the written data, having lost only trailing extensions — iff the cut
+    falls on an extension-record boundary (`atBoundary`); a cut inside a record (its 8-byte size/code
+    head or its content) raises 'failed to read extension header/content'.  Any number of extensions of
+    any sizes (`esize < 2^31`). -/
+theorem pair_ext_prefix (fmt : VolFmt) (img : Img) (hH : fmt.hdrSize = 16 + img.fill.length)
+    (hd : img.data.length < 2 ^ 64) (hf : fmt.fixedOff = none) (hx : fmt.exts = true)
+    (hs : fmt.sniffLen ≤ fmt.hdrSize) (hft : fmt.footer = 0) (e0 : Nat) (he : img.extender = [e0, 0, 0, 0])
+    (he0 : e0 ≠ 0) (hexts : ∀ e ∈ img.exts, 8 + e.2.length < 2 ^ 31) (um : Bool) (j : Nat)
+    (hj : j ≤ (extBytes img).length) :
+    readPair fmt um ⟨(writeHdrFile fmt img).take (fmt.hdrSize + 4 + j), false⟩ (Src.plain (writeImgFile img))
+      = if atBoundary img.exts j then .ok img.data else .error .trunc :=
+  readPair_ext fmt img hH hd hf hx hs hft e0 he he0 hexts um j hj
+
+/-- two extensions of 16 and 32 bytes: boundaries at 0, 16, 48 — nothing in between -/
+example : (List.range 49).filter (atBoundary [(6, List.replicate 8 65), (4, List.replicate 24 66)]) = [0, 16, 48] := by
+  decide +kernel
 
 /-! ### MGH (footer optional) and every extension-less single file: exact characterisation -/
 
@@ -350,29 +402,25 @@ theorem trk_zero_count_header_cut :
 
 /-! ### TCK -/
 
-/- FULL STATEMENT (design `tck_prefix`), proved below only in part:
-
-     theorem tck_prefix (t : Tck) (hlines : every header line is free of `\n`, starts with neither
-         whitespace nor 'E') (hl : StreamsWF t.streams) (m : Nat) (st : Bool)
-         (hm : m < (tckWrite t).length) : ∃ e, tckRead ⟨(tckWrite t).take m, st⟩ = .error e
-
-   Proved: the DATA part at full strength (`tckData_prefix`: whatever strict prefix of the float32 body
-   follows the header — cut inside a float, inside a triple, at a triple or streamline boundary — `_read`
-   raises, because the leftover is not the single `inf` triple; unbounded in the number and length of the
-   streamlines), every strict (decompressor-error) source, and the composition with the header part.
-   Missing: the general proof that the text-header line scan of a truncated file cannot produce an offset
-   other than the true header length (`ScanOk`; needs the decimal print/parse round trip and the
-   self-referential offset computation of `_write_header`).  `ScanOk` is decidable, is checked below for
-   every cut of an example file, and is exercised by the correspondence on every generated prefix. -/
-
-/-- **tck_prefix_partial.**  Streamlines made of 12-byte triples none of which is all-`inf` (finite
-    coordinates in particular; empty streamlines allowed): every strict prefix of the written file for
-    which the header scan is sound (`ScanOk`, see above) makes the reader raise — plain or behind a
-    decompressor. -/
-theorem tck_prefix_partial (t : Tck) (hl : StreamsWF t.streams) (m : Nat) (st : Bool)
-    (hm : m < (tckWrite t).length) (hscan : ScanOk t m) :
+/-- **tck_prefix.**  A TCK file as the model of `TckFile.save` writes it — any header lines the line
+    scan passes over (`GoodLine`: no newline inside, not read as `END`; e.g. every line whose first byte
+    is neither whitespace nor `E`, `goodLine_of_head`), the self-referential `file: . <offset>` line, `END`,
+    then streamlines made of 12-byte triples none of which is all-`inf` (finite coordinates in
+    particular), each followed by a NaN triple, and the final `inf` triple: EVERY strict prefix makes the
+    reader raise, plain or behind a decompressor.  A cut inside the header loses `END` (or the magic); a
+    prefix that contains `END` has the complete `file:` line, whose decimal offset parses back to the true
+    header length (`tckHeader_length`: the offset computation of `_write_header` reaches its fixed point);
+    the data part then lacks the closing `inf` triple or cuts a float / a triple. -/
+theorem tck_prefix (t : Tck) (hlines : ∀ l ∈ t.lines, GoodLine l) (hl : StreamsWF t.streams) (m : Nat)
+    (st : Bool) (hm : m < (tckWrite t).length) :
     ∃ e, tckRead ⟨(tckWrite t).take m, st⟩ = .error e :=
-  tckRead_prefix_of_scan t hl m st hm hscan
+  tckRead_prefix_of_scan t hl m st hm (scanOk_all t hlines m)
+
+/-- **tck_header_scan_sound.**  For every written header and EVERY cut `m`: if the line scan of the
+    truncated file finds an `END` line and a `file:` offset at all, that offset is the true header
+    length. -/
+theorem tck_header_scan_sound (t : Tck) (hlines : ∀ l ∈ t.lines, GoodLine l) (m : Nat) : ScanOk t m :=
+  scanOk_all t hlines m
 
 /-- **tck_data_prefix.**  The data part alone, no side condition: after ANY bytes `pre`, a strict
     prefix of the body read from offset `|pre|` raises. -/
@@ -397,7 +445,13 @@ example : StreamsWF tckEx.streams := by
   · rcases ht with h | h <;> subst h <;> decide
   · subst ht; decide
 
-example : ∀ m, m < (tckWrite tckEx).length → ScanOk tckEx m := by decide +kernel
+example : ∀ l ∈ tckEx.lines, GoodLine l := by
+  intro l hl
+  simp only [tckEx, List.mem_cons, List.not_mem_nil, or_false] at hl
+  rcases hl with h | h <;> subst h <;>
+    exact goodLine_of_head _ _ (by decide) (by decide) (by decide)
+
+example : 100 < (tckWrite tckEx).length := by decide +kernel
 
 example : tckRead (Src.plain (tckWrite tckEx)) = .ok tckEx.streams := by decide +kernel
 
